@@ -177,7 +177,8 @@ HEADER = (
     "From SV Require Import lib.Bytes lib.Tmpl gen.GenClaims model.Claims.\n"
     "Open Scope N_scope.\n"
     "Definition nomatch (a b : str) := false.\n"
-    "Definition boot : state := Eval vm_compute in run_skip nomatch empty_state [\n"
+    "Definition OW := owner_appends_slash.\nDefinition GR := glob_scans_products.\n"
+    "Definition boot : state := Eval vm_compute in run_skip nomatch OW GR empty_state [\n"
     f"  RqStatic CRoot [{coq_str('plan.py')}];\n"
     f"  RqDefine CRoot {coq_str(PLAN)} [{coq_str('plan.py')}] [] [];\n"
     + ";\n".join(f"  RqDefine {coq_creator(PLAN)} {coq_str(l)} [] [] []" for l in CREATORS[1:]) + "].\n"
@@ -188,8 +189,8 @@ HEADER = (
     "Definition agree (tbl : list (str * list str)) (rs : list req) (exp : list (option str))\n"
     "  (cl tr : list (str * (N * (N * str)))) : bool :=\n"
     "  let gm := table_match tbl in\n"
-    "  let st := run_skip gm boot rs in\n"
-    "  leq2 oeq (outcomes gm boot rs) exp && list_eqb row_eqb (claim_rows st) cl\n"
+    "  let st := run_skip gm OW GR boot rs in\n"
+    "  leq2 oeq (outcomes gm OW GR boot rs) exp && list_eqb row_eqb (claim_rows st) cl\n"
     "  && list_eqb row_eqb (tree_rows st) tr.\n"
 )
 
@@ -581,9 +582,9 @@ def model_view(ctx, reqs):
     tbl = match_table(reqs)
     t = coq_list([f"({coq_str(p)}, {coq_strs(ms)})" for p, ms in tbl])
     rs = coq_list([coq_req(r) for r in reqs])
-    terms = [f"map (option_map tag) (outcomes (table_match {t}) boot {rs})",
-             f"claim_rows (run_skip (table_match {t}) boot {rs})",
-             f"tree_rows (run_skip (table_match {t}) boot {rs})"]
+    terms = [f"map (option_map tag) (outcomes (table_match {t}) OW GR boot {rs})",
+             f"claim_rows (run_skip (table_match {t}) OW GR boot {rs})",
+             f"tree_rows (run_skip (table_match {t}) OW GR boot {rs})"]
     try:
         vals = common.eval_terms(ctx, "view", HEADER, terms)
     except Exception as e:  # noqa: BLE001
